@@ -65,3 +65,19 @@ Theorem C15_released_by_shutdown : forall s k, reach s -> l_worker s = WBusy k -
   ctx_done (l_reg s) k = true /\ exists s', lstep s (LSpiReleased ENothing) = Some s' /\ l_worker s' = WSelect.
 Proof. exact spi_released_by_shutdown. Qed.
 Print Assumptions C15_released_by_shutdown.
+
+(* ---- protocol side (Term.v): the consumer's verdict on a proposed block takes effect only in the proposal's own view
+   and under a live context of the position the node is in (the repair of F15 is what makes this true of the code) ---- *)
+From LH Require Import Quorum Msg Term TermFacts.
+Theorem C15_preprepare_takes_effect_only_in_its_own_view_under_a_live_context :
+  forall c wm shut x r s b, handle_pp c wm shut x r s b <> x ->
+  tc_v x = r_view r /\ ctx_ok wm shut (r_height r, tc_v x) = true /\ validProposal (c_me c) (r_height r) b (r_hash r) = true.
+Proof. exact handle_pp_effect. Qed.
+Print Assumptions C15_preprepare_takes_effect_only_in_its_own_view_under_a_live_context.
+
+Theorem C15_new_view_fresh_block_validated_under_the_context_of_the_own_position :
+  forall c wm shut x nty ninst nh nvw vs sg pp pps b,
+  latest_vote vs = None -> handle_nv c wm shut x nty ninst nh nvw vs sg pp pps b <> x ->
+  ctx_ok wm shut (t_h (tc_t x), tc_v x) = true /\ validProposal (c_me c) (r_height pp) b (r_hash pp) = true.
+Proof. exact handle_nv_fresh_effect. Qed.
+Print Assumptions C15_new_view_fresh_block_validated_under_the_context_of_the_own_position.
